@@ -132,6 +132,8 @@ MapOp(e, t, ph, env) ==
     \* a forgotten Drain leaves the unallocated singleton behind
     [] e.op = "drain" -> IF e.n = 1 THEN R(Singleton(t.es), 0, "ok", {}) ELSE R(ClearNoDrop(t), 0, "ok", {})
     [] e.op = "into_iter" -> R(Singleton(t.es), 0, "ok", {})
+    [] e.op = "par_drain" -> R(ClearNoDrop(t), 0, "ok", {})        \* RawParDrain::drop = clear_no_drop
+    [] e.op = "into_par_iter" -> R(Singleton(t.es), 0, "ok", {})
     [] e.op \in {"eq", "iter"} -> same
     [] OTHER -> same
 =============================================================================
